@@ -233,11 +233,13 @@ fn gen_op(r: &mut Rng, pool: &Pool, mode: &str) -> Op {
             }
         }
     }
-    if fail && r.chance(30) && !matches!(op.op.as_str(), "drop" | "clone" | "clone_from" | "clear" | "pop" | "new" | "from_static" | "from_char") {
-        op.f = match r.below(4) {
-            0 => vec![1],
-            1 => vec![2],
-            2 => vec![1, 2],
+    // (also on calls that should not allocate at all, and on the request after the ones the design issues)
+    if fail && r.chance(30) && !matches!(op.op.as_str(), "drop" | "new" | "from_static") {
+        op.f = match r.below(6) {
+            0 | 1 => vec![1],
+            2 => vec![2],
+            3 => vec![1, 2],
+            4 => vec![3],
             _ => vec![1, 3],
         };
         op.t = r.below(2) as i64;
